@@ -107,10 +107,9 @@ def run_variants(prog: Program, prop: str, run_rules, variants: list[Variant], b
         except AnalysisError as e:
             # a variant that makes the analysis itself refuse is a detection for breaking
             # variants (fail-closed) and a failure for benign ones
-            if v.breaking:
-                details.append({"variant": v.name, "status": f"detected (analysis refused: {e})"})
-                continue
-            failures.append(f"benign variant {v.name!r} made the analysis fail: {e}")
+            # an analysis error is exit 2, not a report: a breaking variant must be *reported*
+            kind = "breaking" if v.breaking else "benign"
+            failures.append(f"{kind} variant {v.name!r} made the analysis refuse instead of deciding: {e}")
             continue
         keys = {}
         for f in fs:
